@@ -53,6 +53,17 @@ def handleTamper09 (l : Line) : List Verdict :=
     pure (verdictsOf [] viol)
   r.getD [Verdict.bad "tamper09"]
 
+/-- a second login landing on the same external session id: the re-created entry must open under the NEW cookie's data key only -/
+def handleRelogin09 (l : Line) : List Verdict :=
+  let r : Option (List Verdict) := do
+    let samedek ← l.bool? "samedek"
+    let oldopens ← l.bool? "oldopens"
+    let newopens ← l.bool? "newopens"
+    pure (verdictsOf [] ((if samedek then [("C09.key_separation.dek_reused", "two logins were given the same data encryption key")] else []) ++
+                         (if oldopens && !samedek then [("C09.key_separation.superseded_key_opens", "the store value written by the second login opens under the first login's data key")] else []) ++
+                         (if !newopens then [("C09.key_separation.own_key_fails", "the store value does not open under the data key carried by the user's own (current) cookie")] else [])))
+  r.getD [Verdict.bad "relogin09"]
+
 def handleOutScan (l : Line) : List Verdict :=
   let r : Option (List Verdict) := do
     let found ← l.bool? "found"
